@@ -38,14 +38,14 @@ var specs = map[string]*propSpec{
 	"C01": {
 		ID: "C01", Engine: "storesim", Level: "exploration",
 		QuickRuns: 6000, ThoroughRuns: 400000, Chunk: 250, WatchdogS: 240,
-		Rule: "one evaluation = one simulated history (composition drawn from the backend grammar, blob pool, 8-60 operations incl. restarts) checked step by step against the reference map plus a closing sweep; non-trivial = at least 3 operations; distinct = distinct (composition shape, operation-kind sequence)",
+		Rule: "one evaluation = one simulated history (composition drawn from the backend grammar, blob pool, 8-60 operations incl. restarts) checked step by step against the reference map plus a closing sweep; non-trivial = at least 3 operations; distinct = distinct (composition shape, operation-kind sequence). Compositions with cond stores get blobs above 1 MiB (the size threshold of the 'isSchema' test), and whole enumerations also go through blobserver.EnumerateAll with a callback slower than the enumerator (no call of the callback may begin after the helper returned)",
 		Real: []string{"pkg/blobserver/{memory,files,localdisk,diskpacked,blobpacked,encrypt,replica,shard,cond,overlay,namespace,proxycache,union}", "pkg/blobserver (Receive, MergedEnumerate, StatBlobsParallelHelper)", "filippo.io/age"},
 		Stub: []string{"SimStore leaf stores", "SimKV sorted key/value (meta indexes)", "SimVFS under files", "os shim + scratch directory under diskpacked"},
 	},
 	"C12": {
 		ID: "C12", Engine: "storesim", Level: "fault_enumeration",
 		QuickRuns: 6000, ThoroughRuns: 300000, Chunk: 200, WatchdogS: 240,
-		Rule:      "one evaluation = one replica configuration (n in 1..5, minWritesForSuccess in 1..n, read set equal/subset/with extra store, overlapping pre-seeded contents) driven through one receive per failing subset of replicas (all 2^n subsets for n<=4; failure kind per failing replica: error, error-after-effect, wrong size, slow) interleaved with fetch/stat/enumerate under read-replica faults; completion order of the concurrent uploads is decided by the seeded scheduler; sub-runs = receives; distinct = distinct (n, m, read set size, op/fault sequence)",
+		Rule:      "one evaluation = one replica configuration (n in 1..5, minWritesForSuccess in 1..n, read set equal/subset/with extra store, overlapping pre-seeded contents) driven through one receive per failing subset of replicas (all 2^n subsets for n<=4; failure kind per failing replica: error, error-after-effect, wrong size, slow) interleaved with fetch/stat/enumerate under read-replica faults; completion order of the concurrent uploads is decided by the seeded scheduler; sub-runs = receives; distinct = distinct (n, m, read set size, op/fault sequence). After every history and 30 virtual seconds (stragglers have landed) the bytes every replica keeps are swept: whatever a replica holds under a ref must hash to it. The simulated store fires its fault or delay before it reads the source it was given, so a caller that re-uses a buffer while a straggling replica write is still pending is seen",
 		Real:      []string{"pkg/blobserver/replica", "pkg/blobserver (ReceiveNoHash, MergedEnumerate)"},
 		Stub:      []string{"SimStore replicas with fault plan and scheduling points"},
 		MustReach: []string{"ack-with-failed-replicas", "ack-before-stragglers", "recv-refused"},
@@ -53,14 +53,14 @@ var specs = map[string]*propSpec{
 	"C13": {
 		ID: "C13", Engine: "storesim", Level: "fault_enumeration",
 		QuickRuns: 3500, ThoroughRuns: 150000, Chunk: 25, WatchdogS: 400,
-		Rule: "one evaluation = one history (4-18 operations on a composition whose leaves are simulated stores, files over SimVFS, diskpacked over the os shim, with simulated key/value indexes); sub-runs = re-executions of the history from a fresh world with a single fault (every lower-layer call k of every operation j in a seeded window x every applicable kind: error, error-after-effect, short read, short write, iterator error), each followed by a healthy suffix, a closing sweep, new receives/removes, the store's own recovery procedure (diskpacked.Reindex, blobpacked fast recovery, encrypt meta re-scan over wiped indexes) and a second sweep; non-trivial = at least one single-fault sub-run; distinct = distinct (composition, op kinds, faulted call sites)",
+		Rule: "one evaluation = one history (4-18 operations on a composition whose leaves are simulated stores, files over SimVFS, diskpacked over the os shim, with simulated key/value indexes); sub-runs = re-executions of the history from a fresh world with a single fault (every lower-layer call k of every operation j in a seeded window x every applicable kind: error, error-after-effect, short read, short write, iterator error), each followed by a healthy suffix, a closing sweep, new receives/removes, the store's own recovery procedure (diskpacked.Reindex, blobpacked fast recovery, encrypt meta re-scan over wiped indexes) and a second sweep; non-trivial = at least one single-fault sub-run; distinct = distinct (composition, op kinds, faulted call sites). Whole enumerations also run through blobserver.EnumerateAll with a slow callback (no callback call may begin after the helper returned, error or not); blobpacked compositions receive a packable file inside the fault window; a read that reports success under a fault must be complete",
 		Real: []string{"pkg/blobserver/{files,diskpacked,blobpacked,encrypt,replica,shard,cond,overlay,namespace,proxycache}", "pkg/blobserver (StatBlobsParallelHelper, MergedEnumerate, Receive)"},
 		Stub: []string{"SimStore", "SimKV", "SimVFS", "os shim + simdisk (scratch directory)"},
 	},
 	"C03": {
 		ID: "C03", Engine: "storesim", Level: "fault_enumeration",
 		QuickRuns: 3000, ThoroughRuns: 120000, Chunk: 1, WatchdogS: 400,
-		Rule: "one evaluation = one receive/remove history on the file-per-blob store (over SimVFS) or the packed disk store (over the os shim with a simulated index) with a designated crash operation; sub-runs = crash images checked: for every lower-layer call c of the crash operation (and the instant right after it returned) the process dies before call c+1, and every crash image is materialised (process death = page cache kept; power loss = synced content + each parser-relevant prefix of appended bytes x each subset of in-place overwrites; for files each un-synced file cut at synced/middle/all), reopened, swept, re-indexed from the pack files alone, driven through a suffix of further operations, swept and re-indexed again; distinct = distinct (store, maxFileSize, op kinds, crash op, call count)",
+		Rule: "one evaluation = one receive/remove history on the file-per-blob store (over SimVFS) or the packed disk store (over the os shim with a simulated index) with a designated crash operation; sub-runs = crash images checked: for every lower-layer call c of the crash operation (and the instant right after it returned) the process dies before call c+1, and every crash image is materialised (process death = page cache kept; power loss = synced content + each parser-relevant prefix of appended bytes x each subset of in-place overwrites; for files each un-synced file cut at synced/middle/all), reopened, swept, re-indexed from the pack files alone, driven through a suffix of further operations, swept and re-indexed again; distinct = distinct (store, maxFileSize, op kinds, crash op, call count). One history in eight runs on localdisk over the real osfs.go with a contract-checking VFS in between (RecVFS: a Sync, Close, Rename or MkdirAll that returns without having done its part fails the call) and ends with a clean reopen and sweep",
 		Real: []string{"pkg/blobserver/files", "pkg/blobserver/diskpacked (incl. Reindex, StreamBlobs, delete)"},
 		Stub: []string{"SimVFS (files.VFS)", "os/syscall shim + simdisk crash materialisation", "SimKV index (assumed crash-atomic and durable per call)"},
 	},
@@ -83,7 +83,7 @@ var specs = map[string]*propSpec{
 	"C04": {
 		ID: "C04", Engine: "storesim", Level: "fault_enumeration",
 		QuickRuns: 1200, ThoroughRuns: 40000, Chunk: 10, WatchdogS: 600,
-		Rule:      "one evaluation = one history on blobpacked(small, large, meta) over simulated stores: 1-2 files at/above (a few below) the 512 KiB packing threshold cut by the harness's own chunker (fixed or irregular chunks, optional nested bytes schemas, repeated chunks, identical content under two names), uploaded in a seeded order, with the zip size cap lowered through an injected accessor in most runs (multi-zip packs), then removals, re-uploads and restarts in recovery modes none/fast/full with or without wiping meta; sub-runs = re-executions in which the process dies before each mutating lower-layer call of a packing receive (zip stored, meta batch, loose-blob removal per zip, final whole-file row) followed by a restart in each recovery mode, a sweep, a full recovery from the zips alone and another sweep; each sweep checks fetch/sub-fetch/stat/enumerate of every logical blob against the reference map, whole-file reads at several offsets, and every zip (valid blob within the cap, first entry contiguous file content, manifest consistent)",
+		Rule:      "one evaluation = one history on blobpacked(small, large, meta) over simulated stores: 1-2 files at/above (a few below) the 512 KiB packing threshold cut by the harness's own chunker (fixed or irregular chunks, optional nested bytes schemas, repeated chunks, identical content under two names), uploaded in a seeded order, with the zip size cap lowered through an injected accessor in most runs (multi-zip packs), then removals, re-uploads and restarts in recovery modes none/fast/full with or without wiping meta; sub-runs = re-executions in which the process dies before each mutating lower-layer call of a packing receive (zip stored, meta batch, loose-blob removal per zip, final whole-file row) followed by a restart in each recovery mode, a sweep, a full recovery from the zips alone and another sweep; each sweep checks fetch/sub-fetch/stat/enumerate of every logical blob against the reference map, whole-file reads at several offsets, and every zip (valid blob within the cap, first entry contiguous file content, manifest consistent). StreamBlobs traversals, resumed by continuation token across a pack, are checked against the reference map (every present blob exactly once over a resumed traversal); after a recovery from the zips the blobs removed earlier in the history may be present or absent (removal of a packed blob is recorded in the meta index only, as documented)",
 		Real:      []string{"pkg/blobserver/blobpacked (pack, writeAZip, reindex/recovery, wholefetch, subfetch, enumerate)", "pkg/schema FileReader (used by the packer)"},
 		Stub:      []string{"SimStore small/large", "SimKV meta", "harness chunker (hand-built file/bytes schema blobs)"},
 		MustReach: []string{"multi-zip", "pack-crash-enumerated", "wholeref-read", "zip-validated"},
